@@ -81,6 +81,9 @@ func Run(c *core.Ctx) core.FinishOpts {
 		if only != "" && tc.id != only {
 			return
 		}
+		if selftest && i%40 != 3 {
+			return // self-test: only the cases whose recording is corrupted are run
+		}
 		var wrong func([]sqlref.Row) []sqlref.Row
 		if selftest && i%40 == 3 {
 			if (i/40)%2 == 0 {
